@@ -47,8 +47,10 @@ CONFIGS = {
                  Sts="{1, 2, 3, 4, 5, 6, 7, 8, 9, 10, 11, 12, 13, 14, 15, 16, 17, 18, 19, 20, 21, 22, 23, 24, 25, 26, 27, 28, 29, 30}", P=61),
             dict(name="formatters-high", Starts="{0}", MaxRanges=1, Styles='{"R", "r", "A", "a", "D"}', Prefixes='{""}',
                  Sts="{95, 396, 889, 1987, 3990, 674, 700}", P=9),
-            dict(name="ranges", Starts="{0, 1, 2, 4}", MaxRanges=3, Styles='{"D", "r", "a", "none"}', Prefixes='{"", "p-"}',
-                 Sts="{1, 26}", P=7),
+            dict(name="ranges", Starts="{0, 1, 3}", MaxRanges=2, Styles='{"D", "r", "a", "none"}', Prefixes='{"", "p-"}',
+                 Sts="{1, 26}", P=6),
+            dict(name="ranges-three", Starts="{0, 2, 3, 5}", MaxRanges=3, Styles='{"D", "none"}', Prefixes='{"", "p-"}',
+                 Sts="{1, 7}", P=7),
         ],
         "nametree": [dict(NKeys=5, Depth=2, Fan=3, TreeKeySeqs="<- SomeSeq5", DictKeySets="<- DictSets3", HasTree="<- Bools", HasDict="<- Bools"),
                      dict(NKeys=4, Depth=3, Fan=2, TreeKeySeqs="<- KeySeqs4", DictKeySets="<- DictSets1", HasTree="<- OnlyTrue", HasDict="<- Bools")],
@@ -63,8 +65,8 @@ CONFIGS = {
                  Sts="{1, 2, 3, 4, 5, 6, 7, 8, 9, 10, 11, 12, 13, 14, 15, 16, 17, 18, 19, 20, 21, 22, 23, 24, 25, 26, 27, 28, 29, 30}", P=61),
             dict(name="formatters-high", Starts="{0}", MaxRanges=1, Styles='{"R", "r", "A", "a", "D"}', Prefixes='{""}',
                  Sts="{95, 396, 889, 1987, 2990, 3890, 3990, 674, 700, 18250}", P=100),
-            dict(name="ranges", Starts="{0, 1, 2, 3, 5}", MaxRanges=3, Styles='{"D", "R", "a", "none"}', Prefixes='{"", "p-"}',
-                 Sts="{1, 3, 26}", P=8),
+            dict(name="ranges", Starts="{0, 1, 2, 4}", MaxRanges=3, Styles='{"D", "r", "a", "none"}', Prefixes='{"", "p-"}',
+                 Sts="{1, 26}", P=7),
         ],
         "nametree": [dict(NKeys=6, Depth=3, Fan=3, TreeKeySeqs="<- SomeSeq6", DictKeySets="<- DictSets3", HasTree="<- Bools", HasDict="<- Bools"),
                      dict(NKeys=5, Depth=3, Fan=3, TreeKeySeqs="<- KeySeqs5", DictKeySets="<- DictSets1", HasTree="<- OnlyTrue", HasDict="<- Bools")],
@@ -101,6 +103,15 @@ def guarded(site, fn, findings, detail, seconds=20):
         signal.signal(signal.SIGALRM, old)
         sys.setrecursionlimit(lim)
     return False, None
+
+
+def proper_subsets(dev):
+    """the proper subsets of the deviations in force, largest first (closest to the code as known)"""
+    import itertools
+    out = []
+    for n in range(len(dev) - 1, -1, -1):
+        out += [list(c) for c in itertools.combinations(dev, n)]
+    return out
 
 
 def read_emitted(path):
@@ -150,34 +161,47 @@ def fan_out(ck, kind, items, replay_of):
     return drift
 
 
-def run_spec(ck, module, consts, invariants, properties, actions, label, emit, dev=(), coverage=False):
+def spec_job(tmp, module, consts, invariants, properties, actions, label, emit, dev=(), coverage=False):
     """TLC on one configuration: the intended model (Dev = {}) with the invariants, and - when deviations are in force
-    - the as-coded one, whose terminal states are emitted.  -> records or None when the model itself is violated"""
+    - the as-coded one, whose terminal states are emitted.  Runs in a worker thread: touches nothing shared.
+    -> dict(runs=[(res, label)], recs | None, violated=(key, what, text) | None, need=actions)"""
     runs = [("intended", [])] + ([("as-coded", list(dev))] if dev else [])
-    recs = None
+    out = {"runs": [], "recs": None, "violated": None, "need": actions, "label": label}
     for which, dv in runs:
         c = dict(consts)
         if dev is not None:
             c["Dev"] = tla_set(dv) if dv else "<- NoDev"
         emitting = which == runs[-1][0]
-        cfg = write_cfg(os.path.join(ck.tmp, "c17_%s_%s.cfg" % (label.replace(" ", "_"), which)), constants=c,
-                        invariants=invariants, properties=properties, constraints=["EmitTerminal"] if emitting else [], deadlock=True)
+        cfg = write_cfg(os.path.join(tmp, "c17_%s_%s.cfg" % (label.replace(" ", "_").replace('"', "").replace("{", "").replace("}", "").replace(",", ""), which)),
+                        constants=c, invariants=invariants, properties=properties,
+                        constraints=["EmitTerminal"] if emitting else [], deadlock=True)
         res = run_tlc(os.path.join(NAV, module + ".tla"), cfg, emit=emit if emitting else None,
-                      coverage=coverage and which == "intended", workers=6, timeout=7200)
-        ck.add_tlc(res, "%s %s Dev=%s" % (label, which, dv))
+                      coverage=coverage and which == "intended", workers=4, timeout=7200, env={"JAVA_TOOL_OPTIONS": "-Xss16m"})
+        out["runs"].append((res, "%s %s Dev=%s" % (label, which, dv)))
         if not res.ok:
             st = res.error_trace[0][1] if res.error_trace else {}
-            ck.violation("model:%s:%s" % (module, res.violated), "TLC: %s violated on the %s %s model (%s)"
-                         % (res.violated, which, module, {k: v[:200] for k, v in list(st.items())[:6]}), {"kind": "tlc", "tlc": res.error_text[:4000]})
-            return None
-        if res.actions:
-            require_coverage(res, actions)
+            out["violated"] = ("model:%s:%s" % (module, res.violated), "TLC: %s violated on the %s %s model (%s)"
+                               % (res.violated, which, module, {k: v[:200] for k, v in list(st.items())[:6]}), res.error_text[:4000])
+            return out
         if emitting:
-            recs = read_emitted(emit)
+            out["recs"] = read_emitted(emit)
             os.remove(emit)
-            if not recs:
-                raise MachineryError("%s emitted no terminal state" % label)
-    return recs
+    return out
+
+
+def account(ck, job):
+    """main thread: TLC statistics into the evidence, vacuity guard, model-level violations -> records or None"""
+    for res, label in job["runs"]:
+        ck.add_tlc(res, label)
+        if res.ok and res.actions:
+            require_coverage(res, job["need"])
+    if job["violated"]:
+        key, what, text = job["violated"]
+        ck.violation(key, what, {"kind": "tlc", "tlc": text})
+        return None
+    if not job["recs"]:
+        raise MachineryError("%s emitted no terminal state" % job["label"])
+    return job["recs"]
 
 
 # ================================================================================================ number trees
@@ -317,20 +341,18 @@ def eval_outline(rec, i):
             key = "outline:title" if not titles_ok else "outline:level" if [x[1] for x in real] == [x[1] for x in want] else "outline:items"
             findings.append((key, "get_outlines() reports %s, expected %s (%s)" % (real, want, detail)))
     if real in (want, coded):
-        model = rec["ref"] if real == want else rec["out"]
-        for (lv, t, dest, action, frames), e in zip(got, model):
-            item = e[1]
+        coded_frames = {e[1]: e[2] for e in rec["out"]}
+        for (lv, t, dest, action, frames), (_, item) in zip(got, real):
             kind = "Dest" if dest is not None else "A" if action is not None else "none"
             if kind != tgt[item - 1]:
                 findings.append(("outline:target", "item %d is reported with %s, it has %s (%s)" % (item, kind, tgt[item - 1], detail)))
-            if frames != lv + 1:
-                # live generator frames exceed the nesting: the sibling recursion
-                if "NextRecurses" in fired and real == coded and frames == e[2]:
-                    findings.append(("dev:NextRecurses", "item %d at level %d is produced with %d live generator frames (%s)" % (item, lv, frames, detail)))
-                elif "NextRecurses" in fired:
-                    drift += 1
-                else:
-                    findings.append(("outline:frames", "item %d at level %d is produced with %d live generator frames (%s)" % (item, lv, frames, detail)))
+            if frames == lv + 1:
+                continue                    # as many live generator frames as the nesting asks for
+            if "NextRecurses" in fired and frames == coded_frames.get(item):
+                findings.append(("dev:NextRecurses", "item %d at level %d is produced with %d live generator frames (%s)" % (item, lv, frames, detail)))
+            else:
+                findings.append(("outline:frames", "item %d at level %d is produced with %d live generator frames, the model has %s (%s)"
+                                 % (item, lv, frames, coded_frames.get(item), detail)))
     sample = {"levels": lev, "targets": tgt, "variant": variant, "expected": want, "observed": real,
               "frames": [g[4] for g in got]} if i % 997 == 0 else None
     return findings, drift, 1, n > 1, sample
@@ -380,54 +402,49 @@ def direction_a(ck, dev):
     ldev = [d for d in dev if d in LABEL_DEVS]
     ddev = [d for d in dev if d in DEST_DEVS]
     odev = [d for d in dev if d in OUTLINE_DEVS]
-    # ---- number trees
-    for c in conf["numtree"]:
-        recs = run_spec(ck, "NumTree", c, ["Flattened", "InOrder"], [], ["NEnter", "NKid", "NReturn", "NSort"],
-                        "number trees NKeys=%(NKeys)d Depth=%(Depth)d Fan=%(Fan)d" % c, os.path.join(ck.tmp, "nt.ndjson"), dev=None, coverage=quick)
-        if recs:
-            counts["numtree"] = counts.get("numtree", 0) + len(recs)
-            drift += fan_out(ck, "numtree", recs, lambda r, i: {"kind": "numtree", "rec": r, "i": i})
-    # ---- labels
-    for c in conf["labels"]:
-        c = dict(c)
-        name = c.pop("name")
-        recs = run_spec(ck, "MC_Labels", c, ["LabelRef", "RomanDomain"], ["Progress"], ["LStart", "LRange", "LEmit", "LStop"],
-                        "labels " + name, os.path.join(ck.tmp, "lb.ndjson"), dev=ldev, coverage=quick and name == "ranges")
-        if recs:
-            counts["labels:" + name] = len(recs)
-            drift += fan_out(ck, "labels", recs, lambda r, i: {"kind": "labels", "rec": r, "i": i})
-    # ---- named destinations
-    for c in conf["nametree"]:
-        recs = run_spec(ck, "MC_NameTree", c, ["DestRef", "OneLeaf", "PathShaped"], ["Progress"],
-                        ["DStart", "KPrune", "KLeafHit", "KLeafMiss", "KKids", "KKid", "KExhausted", "KReturnToLoop", "KReturnToTop", "DFallback"],
-                        "name trees NKeys=%(NKeys)d Depth=%(Depth)d Fan=%(Fan)d" % c, os.path.join(ck.tmp, "nm.ndjson"), dev=ddev,
-                        coverage=quick and c["Fan"] == 3)
-        if recs:
-            groups = {}
-            for r in recs:
-                groups.setdefault(json.dumps([r["tree"], r["hastree"], sorted(r["dict"]), r["hasdict"]]), []).append(r)
-            groups = list(groups.values())
-            counts["dest-queries"] = counts.get("dest-queries", 0) + len(recs)
-            counts["dest-documents"] = counts.get("dest-documents", 0) + len(groups)
-            drift += fan_out(ck, "dests", groups, lambda g, i: {"kind": "dests", "group": g, "i": i})
-    # ---- outlines
-    for c in conf["outline"]:
-        recs = run_spec(ck, "MC_Outline", c, ["OutlinePreorder", "LevelsRight", "StackByNesting"], ["Progress"],
-                        ["OVisit", "OFirst", "ONext", "OReturn"], "outlines MaxItems=%(MaxItems)d Targets=%(Targets)s" % c,
-                        os.path.join(ck.tmp, "ol.ndjson"), dev=odev, coverage=quick and c["MaxItems"] == 4)
-        if recs:
-            counts["outlines"] = counts.get("outlines", 0) + len(recs)
-            drift += fan_out(ck, "outline", recs, lambda r, i: {"kind": "outline", "rec": r, "i": i})
-    # ---- text strings
-    for c in conf["text"]:
-        c = dict(c)
-        name = c.pop("name")
-        recs = run_spec(ck, "MC_TextString", c, ["DecodeRule"], ["ModeStable", "Progress"],
-                        ["TBomTest", "TUnit", "TEnd"] + (["TOddTail"] if name == "bom" else ["TDocByte"]),
-                        "text strings " + name, os.path.join(ck.tmp, "tx.ndjson"), dev=None, coverage=quick)
-        if recs:
-            counts["text:" + name] = len(recs)
-            drift += fan_out(ck, "text", recs, lambda r, i: {"kind": "text", "rec": r, "i": i})
+    from concurrent.futures import ThreadPoolExecutor
+    jobs = []       # (kind, name, future)
+    with ThreadPoolExecutor(max_workers=4) as ex:
+        def submit(kind, name, *a, **kw):
+            jobs.append((kind, name, ex.submit(spec_job, ck.tmp, *a, **kw)))
+        for n, c in enumerate(conf["numtree"]):
+            submit("numtree", "numtree", "NumTree", c, ["Flattened", "InOrder"], [], ["NEnter", "NKid", "NReturn", "NSort"],
+                   "number trees NKeys=%(NKeys)d Depth=%(Depth)d Fan=%(Fan)d" % c, os.path.join(ck.tmp, "nt%d.ndjson" % n), dev=None, coverage=quick)
+        for n, c in enumerate(conf["labels"]):
+            c = dict(c)
+            name = c.pop("name")
+            submit("labels", "labels:" + name, "MC_Labels", c, ["LabelRef", "RomanDomain"], ["Progress"], ["LStart", "LRange", "LEmit", "LStop"],
+                   "labels " + name, os.path.join(ck.tmp, "lb%d.ndjson" % n), dev=ldev, coverage=quick and name == "ranges-three")
+        for n, c in enumerate(conf["nametree"]):
+            submit("dests", "dest-queries", "MC_NameTree", c, ["DestRef", "OneLeaf", "PathShaped"], ["Progress"],
+                   ["DStart", "KPrune", "KLeafHit", "KLeafMiss", "KKids", "KKid", "KExhausted", "KReturnToLoop", "KReturnToTop", "DFallback"],
+                   "name trees NKeys=%(NKeys)d Depth=%(Depth)d Fan=%(Fan)d" % c, os.path.join(ck.tmp, "nm%d.ndjson" % n), dev=ddev,
+                   coverage=quick and c["Fan"] == 3)
+        for n, c in enumerate(conf["outline"]):
+            submit("outline", "outlines", "MC_Outline", c, ["OutlinePreorder", "LevelsRight", "StackByNesting"], ["Progress"],
+                   ["OVisit", "OFirst", "ONext", "OReturn"], "outlines MaxItems=%(MaxItems)d Targets=%(Targets)s" % c,
+                   os.path.join(ck.tmp, "ol%d.ndjson" % n), dev=odev, coverage=quick and c["MaxItems"] == 4)
+        for n, c in enumerate(conf["text"]):
+            c = dict(c)
+            name = c.pop("name")
+            submit("text", "text:" + name, "MC_TextString", c, ["DecodeRule"], ["ModeStable", "Progress"],
+                   ["TBomTest", "TUnit", "TEnd"] + (["TOddTail"] if name == "bom" else ["TDocByte"]),
+                   "text strings " + name, os.path.join(ck.tmp, "tx%d.ndjson" % n), dev=None, coverage=quick)
+        # the terminal states of each finished model are replayed while the others are still being checked
+        for kind, name, fut in jobs:
+            recs = account(ck, fut.result())
+            if not recs:
+                continue
+            counts[name] = counts.get(name, 0) + len(recs)
+            if kind == "dests":
+                groups = {}
+                for r in recs:
+                    groups.setdefault(json.dumps([r["tree"], r["hastree"], sorted(r["dict"]), r["hasdict"]]), []).append(r)
+                groups = list(groups.values())
+                counts["dest-documents"] = counts.get("dest-documents", 0) + len(groups)
+                drift += fan_out(ck, "dests", groups, lambda g, i: {"kind": "dests", "group": g, "i": i})
+            else:
+                drift += fan_out(ck, kind, recs, lambda r, i, kind=kind: {"kind": kind, "rec": r, "i": i})
     # ---- the PDFDocEncoding table as data (supplementary: not model checking)
     table_diff = [b for b in range(256) if ND.DOC_TABLE[b] != -1 and ord(OB.decode_text(bytes([b]))) != ND.DOC_TABLE[b]]
     ck.extra["pdfdocencoding_table_cross_check"] = {"bytes_defined_by_annex_D": sum(1 for v in ND.DOC_TABLE if v != -1),
@@ -557,28 +574,39 @@ def explain_rejection(doc, st, dev):
         ol = doc["outlines"][0]
         return "outline: after %d of %d recorded items the generator machine is at %s; next recorded item %s" % (
             k, len(ol["out"]), st.get("stack", "")[-160:], ol["out"][k] if k < len(ol["out"]) else "(none)")
-    return "labels / destinations / text strings of the document are not what the specification's functions give"
+    what = {"labels": "the recorded page labels are not the ones the label generator gives for the re-derived number tree",
+            "dests": "a recorded get_dest result is not what lookup_name / get_dest give on the re-derived name tree and /Dests dictionary",
+            "texts": "a recorded decode_text result is not the decoding of its bytes"}
+    return what.get(phase, "phase %s" % phase)
 
 
 def validate(ck, docs, dev):
+    """-> number of rejected documents (each reported).  The as-coded model (known deviations in force) first; when it
+    does not explain everything, the intended model is tried on the same documents (a repaired deviation is no alarm)"""
     todo = list(docs)
-    rejected = intended_only = 0
+    rejected = 0
+    first = True
     while todo:
         res = _trace_run(ck, todo, dev, "coded")
         ck.add_tlc(res, "recorded navigation traces (%d documents)" % len(todo))
         if res.ok:
             break
+        if first and dev:
+            first = False
+            explained = None
+            for sub in proper_subsets(dev):
+                res2 = _trace_run(ck, todo, sub, "sub")
+                ck.add_tlc(res2, "recorded navigation traces against the model with deviations %s (%d documents)" % (sub, len(todo)))
+                if res2.ok:
+                    explained = sub
+                    break
+            if explained is not None:
+                ck.note("the recorded documents follow the model with deviations %s only, where %s are listed as known (repaired in this tree?)" % (explained, dev))
+                break
         st = res.error_trace[-1][1]
         dnum = int(st["d"])
         doc = todo[dnum - 1]
         todo = todo[dnum:]
-        if dev:
-            res2 = _trace_run(ck, [doc], [], "intended")
-            ck.add_tlc(res2, "trace %s against the intended model" % doc["name"])
-            if res2.ok:
-                intended_only += 1
-                continue
-            st = res2.error_trace[-1][1]
         rejected += 1
         ck.violation("trace-rejected:" + st.get("phase", "?").strip('"'),
                      "recorded calls on %s are not a behaviour of the navigation specification: %s" % (doc["name"], explain_rejection(doc, st, dev)),
@@ -586,8 +614,6 @@ def validate(ck, docs, dev):
         if rejected >= 5:
             rejected += len(todo)
             break
-    if intended_only:
-        ck.note("%d recorded documents follow the intended model where a known deviation is listed (repaired in this tree?)" % intended_only)
     return rejected
 
 
